@@ -1,4 +1,70 @@
-/-! Line-protocol driver for property C18 (stub until the model exists). -/
+import CprocVerif.Model.DriverFail
+
+/-! Line-protocol driver for property C18 (model of the driver's failure handling,
+`CprocVerif.DriverFail.run`).
+
+One input line = one scenario, tokens separated by blanks:
+* `L0` | `L1`                      last stage is not / is LINK
+* `P<n>,<bits>,<c>,<reaps>`        one pipeline: `n` stages, `bits` = posix_spawn result per stage
+                                   (`1` ok, `0` fails), `c` = `1` if the tool creates the output,
+                                   `reaps` = `-` or `stage:o|f` joined by `/` (order of wait() results)
+* `K<s><o|f><c>`                   link step: spawn result, exit status class, output created
+Output: `{"exit":0|1|null,"link":b,"temps":[…],"outputs":[…],"live":[[p,s]…],
+          "signalled":[[p,s]…],"started":[[p,s]…],"finished":[[p,s]…]}`; `bad-op` otherwise.
+-/
+
+open CprocVerif.DriverFail
+
+def parseReaps (s : String) : Option (List Reap) :=
+  if s == "-" then some []
+  else (s.splitOn "/").mapM fun r =>
+    match r.splitOn ":" with
+    | [a, "o"] => a.toNat?.map (⟨·, .ok⟩)
+    | [a, "f"] => a.toNat?.map (⟨·, .fail⟩)
+    | _ => none
+
+def parsePipe (s : String) : Option PipeScript :=
+  match s.splitOn "," with
+  | [n, bits, c, reaps] =>
+    match n.toNat?, parseReaps reaps with
+    | some n, some rs => some { n := n, spawnOk := bits.toList.map (· == '1'), reaps := rs, created := c == "1" }
+    | _, _ => none
+  | _ => none
+
+def parseLine (line : String) : Option Script :=
+  let toks := (line.trimAscii.toString.splitOn " ").filter (· != "")
+  let go := toks.foldl (fun (acc : Option Script) tok =>
+    acc.bind fun sc =>
+      match tok.toList with
+      | ['L', b] => some { sc with link := b == '1' }
+      | 'P' :: rest => (parsePipe (String.ofList rest)).map fun p => { sc with pipes := sc.pipes ++ [p] }
+      | ['K', s, st, c] => some { sc with linkSpawnOk := s == '1', linkStatus := if st == 'o' then .ok else .fail, linkCreated := c == '1' }
+      | _ => none) (some { link := false, pipes := [], linkSpawnOk := true, linkStatus := .ok, linkCreated := true })
+  go
+
+def natsJ (l : List Nat) : String := "[" ++ ",".intercalate (l.map toString) ++ "]"
+def pairsJ (l : List (Nat × Nat)) : String :=
+  "[" ++ ",".intercalate (l.map fun p => "[" ++ toString p.1 ++ "," ++ toString p.2 ++ "]") ++ "]"
+
+def outcomeJ (o : Outcome) : String :=
+  "{\"exit\":" ++ (match o.exit with | some n => toString n | none => "null") ++
+  ",\"link\":" ++ (if o.linkSpawned then "true" else "false") ++
+  ",\"temps\":" ++ natsJ o.files.temps ++ ",\"outputs\":" ++ natsJ o.files.outputs ++
+  ",\"live\":" ++ pairsJ o.live ++ ",\"signalled\":" ++ pairsJ o.signalled ++
+  ",\"started\":" ++ pairsJ o.started ++ ",\"finished\":" ++ pairsJ o.finished ++ "}"
+
+partial def loop (stdin stdout : IO.FS.Stream) : IO Unit := do
+  let line ← stdin.getLine
+  if line.isEmpty then
+    return ()
+  match parseLine line with
+  | some sc => stdout.putStrLn (outcomeJ (run sc))
+  | none => stdout.putStrLn "bad-op"
+  loop stdin stdout
+
 def main (_args : List String) : IO UInt32 := do
-  IO.eprintln "drv_c18: no model yet"
-  return 2
+  let stdin ← IO.getStdin
+  let stdout ← IO.getStdout
+  loop stdin stdout
+  stdout.flush
+  return 0
